@@ -24,7 +24,7 @@ func VerifC06Chain() {
 	maxSteps := verifParam("steps", 3)
 	bits := uint(verifParam("bits", 7)) // 7: every field is one uvarint byte (widths are C06.codec/C06.record)
 	dir := verifTempPath("gsfa-chain")
-	w := c06NewWriter(dir, 2, false)
+	w := c06NewWriter(dir, 2, true) // the flusher goroutine idles until Close
 	keys := [3]solana.PublicKey{c06Key(0), c06Key(1), c06Key(2)}
 	var pushed [2][]linkedlog.OffsetAndSizeAndSlot // per address, in indexing order
 
@@ -37,7 +37,7 @@ func VerifC06Chain() {
 		vals := make([]*linkedlog.OffsetAndSizeAndSlot, nb)
 		for i := range vals {
 			if i == nb-1 {
-				vals[i] = c06SymEntry(14)
+				vals[i] = c06SymEntry(14, true)
 			} else { // concrete filler entries, pairwise distinct
 				c06Serial++
 				vals[i] = &linkedlog.OffsetAndSizeAndSlot{Offset: uint64(i % 100), Size: c06Serial, Slot: uint64(i%120 + 1), Flags: linkedlog.Bitmap(i % 8)}
@@ -57,7 +57,7 @@ func VerifC06Chain() {
 			n := 1 + verifChoice("batchlen", 2)
 			vals := make([]*linkedlog.OffsetAndSizeAndSlot, n)
 			for i := range vals {
-				vals[i] = c06SymEntry(bits)
+				vals[i] = c06SymEntry(bits, verifParam("symslot", 0) == 1)
 				pushed[k] = append(pushed[k], *vals[i])
 			}
 			kvs = append(kvs, linkedlog.KeyToOffsetAndSizeAndBlocktime{Key: keys[k], Values: vals})
@@ -70,13 +70,28 @@ func VerifC06Chain() {
 	for k := 0; k < 2; k++ {
 		want := c06Reversed(pushed[k])
 		c06CheckGet(r, keys[k], want, "C06.chain")
-		if len(want) > 1 {
-			// limit: the newest len-1 entries
-			got, err := r.Get(context.Background(), keys[k], len(want)-1)
-			verifAssert(err == nil && len(got) == len(want)-1, "C06.chain: Get with limit n-1 does not return n-1 entries")
+		// limit: for every limit 1..n+1 the answer is the newest min(limit, n) entries (the cut can
+		// fall inside a record or exactly on a record boundary); limit <= 0 is an empty answer
+		for lim := 1; len(want) > 0 && lim <= len(want)+1; lim++ {
+			if len(want) > 8 && lim > 3 && lim < len(want)-2 {
+				continue // long chains (C06.chain-big): the cuts near both ends only
+			}
+			got, err := r.Get(context.Background(), keys[k], lim)
+			n := lim
+			if n > len(want) {
+				n = len(want)
+			}
+			verifAssert(err == nil && len(got) == n, "C06.chain: Get with limit L does not return min(L, n) entries")
 			for i := range got {
 				verifAssert(got[i] == want[i], "C06.chain: Get with a limit does not return the newest entries")
 			}
+		}
+		for _, lim := range []int{0, -1} {
+			if len(want) == 0 {
+				break
+			}
+			got, err := r.Get(context.Background(), keys[k], lim)
+			verifAssert(err == nil && len(got) == 0, "C06.chain: Get with a non-positive limit is not an empty answer")
 		}
 	}
 	c06CheckGet(r, keys[2], nil, "C06.chain")
